@@ -123,11 +123,12 @@ CHECKS = {
     tech='symbolic execution of dereferencing under symbolic binding orders (CrossHair+z3) vs reference substitution', ref='2 C15'),
  'C01': dict(
     text='Bounded symbolic execution (CrossHair/z3) of YP.query over the Python that the current compiler generates for a listed '
-         'family of 14 program skeletons (joins, repeated and nested head variables, 0-arity rules, anonymous variables, lists and '
-         '[H|T], recursion, =, \\=, true, fail, compiled atom facts), with the dynamic fact base (count and all integer arguments) and '
+         'family of 19 program skeletons (joins, repeated and nested head variables, 0-arity rules, anonymous variables, lists and '
+         '[H|T], recursion also over dynamic facts of the same name, variable names reused across clauses, aliasing, predicates that never succeed, '
+         '=, \\=, true, fail, compiled atom facts) plus solver-enumerated clause-head patterns (9 patterns x 6 bodies, compiled per path), with the dynamic fact base (count and all integer arguments) and '
          'the binding pattern and constants of every query argument symbolic; on every path the canonically renamed answer sequence '
          '(order, multiplicity, aliasing) equals that of an independent SLD interpreter. CONFIRMED = path tree exhausted.',
-    note='Bounded: listed skeletons, <=2 (quick) / <=3 (thorough) facts per dynamic predicate, answer cap; the ANTLR front end and the '
+    note='Bounded: listed skeletons and head patterns, <=2 (quick) / <=3 (thorough) facts per dynamic predicate, answer cap; the ANTLR front end and the '
          'compiler run natively on concrete skeleton text; refprolog is the trusted oracle (validated against the repository tests).',
     tech='symbolic execution of compiled clauses through YP.query (CrossHair+z3) vs reference SLD interpreter', ref='2 C01'),
  'C05': dict(
